@@ -82,6 +82,9 @@ def run(unit, repo, root, synced=False, group=None, tier=None):
         bound += " [thorough tier: enlarged, see witness/%s.rs]" % unit
     res = {"bound": bound, "cmd": " ".join(cmd), "wall_s": round(time.time() - t0, 1)}
     found = re.findall(r"VERIF-WITNESS//FOUND ([^\n]*)", out)
+    cm = re.search(r"VERIF-WITNESS//NONE cases=(\d+)", out) or re.search(r"failing cases of (\d+)\)", out)
+    if cm:
+        res["cases"] = int(cm.group(1))
     if found:
         res.update(status="found", detail=found[0], found_all=found[:200])
         return res
